@@ -3,7 +3,7 @@
 d=$1; p=$2; shift 2
 cd /verif
 git -C /repo apply "$(realpath $d)/patch.diff" || { echo "PATCH FAILED"; exit 9; }
-./check $p "$@" 2>&1 | grep -E "VIOLATION|UNDECIDED|KNOWN|SUMMARY|CHECKER" | cut -c1-400
+PYVC_EVIDENCE_DIR=/tmp/mutant-evidence ./check $p "$@" 2>&1 | grep -E "VIOLATION|UNDECIDED|KNOWN|SUMMARY|CHECKER" | cut -c1-400
 rc=$?
 git -C /repo checkout -- . 
 git -C /repo status --short | grep -v egg-info
